@@ -88,6 +88,8 @@ func c04Commands(f *concFix) []crashCmd {
 	add("set--agent{state:doing}", core.R("", "--json", "--agent", "ag", "set", f.T1).In(`{"state":"doing"}`))
 	add("set{title,5KB-body,claim,state}", core.R("", "--json", "set", f.T1).In(jsonStr(map[string]string{"title": "renamed", "body": strings.Repeat("0123456789", 520), "claim": "ag", "state": "blocked"})))
 	add("set{title,100KB-body,claim,state}", core.R("", "--json", "set", f.T1).In(jsonStr(map[string]string{"title": "renamed", "body": strings.Repeat("0123456789", 10200), "claim": "ag", "state": "blocked"})))
+	add("new-task{300KB-body,claim,state}", core.R("", "--json", "new", "task").In(jsonStr(map[string]string{"title": "NB3", "body": strings.Repeat("abcdefghij", 30700), "claim": "creator", "state": "blocked"})))
+	add("set{1.2MB-body,state}", core.R("", "--json", "set", f.T1).In(jsonStr(map[string]string{"body": strings.Repeat("0123456789", 123000), "state": "blocked"})))
 	add("new-task{100KB-body,claim}", core.R("", "--json", "new", "task").In(jsonStr(map[string]string{"title": "NB", "body": strings.Repeat("abcdefghij", 10200), "claim": "creator"})))
 	add("prune", core.R("", "--json", "prune", "--yes"))
 	add("plan-2", core.R("", "--json", "plan").In(`{"title":"P","tasks":[{"title":"pa"},{"title":"pb","after":["pa"]}]}`))
